@@ -38,16 +38,20 @@ def c16(ctx, rep):
     optable.rule_prefix_table(ctx, rep)
     optable.rule_prefix_and_roundtrip(ctx, rep)
     optable.rule_field_tables(ctx, rep)
+    optable.rule_tokens(ctx, rep)
 
 
 @prop("C19", "Decides the structural clauses of C19: (T-OP(version,mode)) introduction version and mode of every opcode class and "
              "(T-FIELD(version)) of every field class equal the AVM tables; (T-OP(cost)) cost for every declared version >= "
-             "introduction equals the AVM cost table and BasicBlock.cost is the sum. Not decided: run-time size dependent cost parts.")
+             "introduction equals the AVM cost table and BasicBlock.cost is the sum; (T-VERSION) _verify_version over every opcode x declared version 1-8 and every field x boundary versions, mixed-mode rows; (T-MODE) mode detection table, declared version, contract type and routing on program shapes. Not decided: run-time size dependent cost parts.")
 def c19(ctx, rep):
     optable.rule_opcode_classes(ctx, rep)
     optable.rule_version_mode(ctx, rep)
     optable.rule_field_versions(ctx, rep)
     optable.rule_cost(ctx, rep)
+    version_rules.rule_verify_version(ctx, rep)
+    version_rules.rule_detect_mode_table(ctx, rep)
+    version_rules.rule_mode_and_type(ctx, rep)
 
 
 from .rules import cmptables  # noqa: E402
@@ -249,6 +253,7 @@ def c12(ctx, rep):
 
 
 from .rules import output_rules  # noqa: E402
+from .rules import version_rules  # noqa: E402
 
 
 @prop("C17", "Decides the structural clauses of C17 (absence of classes of internal errors, each with a true positive in this code base): "
